@@ -438,6 +438,12 @@ func c04KeyTypes(c *core.Ctx, cn *int) {
 							interop++
 						}
 					}
+					// an envelope made by another implementation: same metadata, other (valid) JSON spelling of the
+					// payload; the library signs it with a second key: both signatures must then verify, also
+					// independently over the payload bytes that the dumped file carries
+					if dsse {
+						c04Foreign(c, id, ki*10+rep, kind, k, keys[(ki+1)%len(keys)], &interop)
+					}
 					c.End(id)
 					c.Class("keytype", k.Kind, dsse, kind, rep)
 				}
@@ -445,6 +451,79 @@ func c04KeyTypes(c *core.Ctx, cn *int) {
 		}
 	}
 	c.Obs("interop_signatures_ok", interop)
+}
+
+func c04Foreign(c *core.Ctx, id string, i int, kind string, k1, k2 gen.KeyPair, interop *int64) {
+	o, _ := newC04Obj(c, i, true, kind)
+	if o == nil {
+		return
+	}
+	// plain encoding/json spelling of the tree: escapes control characters as \n, \t, \u00XX and <>& as \u003c...
+	pb, err := json.Marshal(o.tree)
+	if err != nil {
+		return
+	}
+	pt := "application/vnd.in-toto+json"
+	sig, err := ref.SignStd(k1.Signer, ref.PAE(pt, pb))
+	if err != nil {
+		return
+	}
+	file := filepath.Join(c.WorkDir, "c04-foreign.json")
+	env := map[string]any{"payloadType": pt, "payload": base64.StdEncoding.EncodeToString(pb), "signatures": []any{map[string]any{"keyid": k1.Pub.KeyID, "sig": base64.StdEncoding.EncodeToString(sig)}}}
+	eb, _ := json.Marshal(env)
+	os.WriteFile(file, eb, 0644)
+	detail := map[string]any{"payload": string(pb), "first_signer": k1.Name, "second_signer": k2.Name}
+	md, err := intoto.LoadMetadata(file)
+	c.Eval(1)
+	if err != nil {
+		c.Violation("envelope made by an independent implementation is refused by the loader: "+core.MsgClass(err.Error()), id, detail)
+		return
+	}
+	if err := md.VerifySignature(k1.Pub); err != nil {
+		c.Violation("signature of an independent implementation over its own payload bytes is rejected: "+core.MsgClass(err.Error()), id, detail)
+		return
+	}
+	if err := md.Sign(k2.Priv); err != nil {
+		c.Violation("Sign on a loaded foreign envelope fails: "+core.MsgClass(err.Error()), id, detail)
+		return
+	}
+	for _, k := range []gen.KeyPair{k1, k2} {
+		if err := md.VerifySignature(k.Pub); err != nil {
+			c.Violation("after signing a foreign envelope with a second key, key "+map[bool]string{true: "1 (the foreign signer)", false: "2 (the new signer)"}[k.Name == k1.Name]+" no longer verifies", id, detail)
+			return
+		}
+	}
+	// independent check of both signatures over the payload bytes in the dumped file
+	out := filepath.Join(c.WorkDir, "c04-foreign-out.json")
+	md.Dump(out)
+	raw, _ := os.ReadFile(out)
+	var e2 struct {
+		PayloadType string `json:"payloadType"`
+		Payload     string `json:"payload"`
+		Signatures  []struct {
+			KeyID string `json:"keyid"`
+			Sig   string `json:"sig"`
+		} `json:"signatures"`
+	}
+	if json.Unmarshal(raw, &e2) != nil {
+		return
+	}
+	p2, _ := base64.StdEncoding.DecodeString(e2.Payload)
+	verified := 0
+	for _, s := range e2.Signatures {
+		sb, _ := base64.StdEncoding.DecodeString(s.Sig)
+		for _, k := range []gen.KeyPair{k1, k2} {
+			if s.KeyID == k.Pub.KeyID && ref.VerifyStd(k.Public, ref.PAE(e2.PayloadType, p2), sb) == nil {
+				verified++
+			}
+		}
+	}
+	if verified < 2 {
+		detail["dumped_file"] = string(raw)
+		c.Violation("after the library added a signature to a foreign envelope, the dumped file no longer carries two independently verifiable signatures", id, detail)
+		return
+	}
+	*interop += 2
 }
 
 // c04Mutations: single-point mutations of payload, signature, key id, verifying key.
@@ -611,7 +690,7 @@ func init() {
 	core.Register(&core.Property{
 		ID:    "C04",
 		Level: "exploration",
-		Rule: "(1) all operation histories of length<=3 (quick) / <=4 (thorough) over {sign(k0 Ed25519), sign(k1 ECDSA P-256), sign(k2 RSA-2048), dump+load, change a signed field, sign again with the last signer, edit an element of a collection handed out by GetPayload and set the payload again} x {link, layout} x {legacy, DSSE}; after every operation each of 4 keys (3 history keys + an outsider) must verify iff it signed the current content, and every emitted signature is verified independently with crypto/* over reference bytes (reference canonical JSON / reference DSSE PAE); (2) every key kind (RSA-2048/3072, ECDSA P-224/256/384/521, Ed25519; thorough: fresh keys too) x wrapper x payload: library signs -> stdlib verifies, dump+load, stdlib signs reference bytes -> library verifies; (3) single-point mutations: every payload leaf edit/delete/insert, signature first/middle/last character, empty/doubled signature, key id edit, every other pool key, key objects with the signer's id and foreign material in both orders of use. " +
+		Rule: "(1) all operation histories of length<=3 (quick) / <=4 (thorough) over {sign(k0 Ed25519), sign(k1 ECDSA P-256), sign(k2 RSA-2048), dump+load, change a signed field, sign again with the last signer, edit an element of a collection handed out by GetPayload and set the payload again} x {link, layout} x {legacy, DSSE}; after every operation each of 4 keys (3 history keys + an outsider) must verify iff it signed the current content, and every emitted signature is verified independently with crypto/* over reference bytes (reference canonical JSON / reference DSSE PAE); (2) every key kind (RSA-2048/3072, ECDSA P-224/256/384/521, Ed25519; thorough: fresh keys too) x wrapper x payload: library signs -> stdlib verifies, dump+load, stdlib signs reference bytes -> library verifies; DSSE envelope of an independent implementation (other JSON spelling of the payload) loaded, verified, signed with a second key, both signatures verified by the library and independently over the dumped payload bytes; (3) single-point mutations: every payload leaf edit/delete/insert, signature first/middle/last character, empty/doubled signature, key id edit, every other pool key, key objects with the signer's id and foreign material in both orders of use. " +
 			"non-trivial = history contains a sign; distinct = (history, wrapper, payload type) / (key kind, wrapper, payload) / (mutation label...)",
 		Assumptions: []string{"Go's crypto/rsa, crypto/ecdsa, crypto/ed25519 are the trusted base (independent use, not an independent implementation)", "payloads are generated with hostile strings, a third of them with absent (nil) collections; reference bytes come from harness/ref/cjson.go"},
 		Workers:     func(string) int { return 16 },
